@@ -33,6 +33,22 @@ impl FixtureDatabase {
         self.analyze_file_internal(file_path, content, false);
     }
 
+    /// Whether a file lives in a `site-packages` directory (third-party code).
+    ///
+    /// Only a path COMPONENT named `site-packages` counts, and for files inside the
+    /// workspace only components below the workspace root: a project checked out under a
+    /// directory whose name merely contains (or is) `site-packages` is not third-party.
+    fn is_in_site_packages(&self, file_path: &Path) -> bool {
+        let workspace = self.workspace_root.lock().unwrap();
+        let relevant = workspace
+            .as_ref()
+            .and_then(|root| file_path.strip_prefix(root).ok())
+            .unwrap_or(file_path);
+        relevant
+            .components()
+            .any(|c| c.as_os_str() == "site-packages")
+    }
+
     /// Internal file analysis with optional cleanup of previous definitions
     fn analyze_file_internal(&self, file_path: PathBuf, content: &str, cleanup_previous: bool) {
         // Use cached canonical path to avoid repeated filesystem calls
@@ -463,7 +479,7 @@ impl FixtureDatabase {
 
             let (start_char, end_char) = self.find_function_name_position(content, line, func_name);
 
-            let is_third_party = file_path.to_string_lossy().contains("site-packages")
+            let is_third_party = self.is_in_site_packages(file_path)
                 || self.is_editable_install_third_party(file_path);
             let is_plugin = self.plugin_fixture_files.contains_key(file_path);
 
@@ -628,9 +644,8 @@ impl FixtureDatabase {
                                 fixture_name, file_path, line, start_char, end_char
                             );
 
-                            let is_third_party =
-                                file_path.to_string_lossy().contains("site-packages")
-                                    || self.is_editable_install_third_party(file_path);
+                            let is_third_party = self.is_in_site_packages(file_path)
+                                || self.is_editable_install_third_party(file_path);
                             let is_plugin = self.plugin_fixture_files.contains_key(file_path);
                             let definition = FixtureDefinition {
                                 name: fixture_name.to_string(),
